@@ -268,6 +268,13 @@ def corr_tok(pid):
             from harness.props import c09
 
             srcs = [s for _, s in c09.build_inputs(tier) if len(s) < 20000] + srcs[:800]
+        elif pid == "C14":
+            from harness.common import rng
+            from harness.props import c14
+
+            r = rng("C14", "tokcorr")
+            pool14 = c14.statement_pool(r, tier)
+            srcs = pool14 + [r.choice(pool14) + r.choice(pool14) for _ in range(600 if tier == "quick" else 20000)] + srcs[:600]
         elif pid == "C03":
             from harness.props import c03
 
